@@ -28,7 +28,7 @@ def dispatch_harness(tier):
         for na in (1, 2):
             for ars in itertools.product((-1, 1, 2), repeat=nf):
                 ncand = sum(1 for a in ars if a in (-1, na))
-                wit = (('witness: overload chosen', 'witness: callee throws') if ncand else ()) + (('witness: fallback',) if ncand < 2 else ()) + (('witness: exact match preferred',) if ncand >= 2 and any(a == na for a in ars[1:]) else ())
+                wit = (('witness: overload chosen', 'witness: callee throws') if ncand else ()) + (('witness: fallback',) if ncand < 2 else ()) + (('witness: exact match preferred', 'witness: exact match through a pointer/shared_ptr parameter preferred') if ncand >= 2 and any(a == na for a in ars[1:]) else ())
                 sh = dict(d, NF=nf, NA=na, _tag='args=%d,arities=%s' % (na, '/'.join(str(a) for a in ars)), _witness=wit)
                 # with two or more candidates CBMC does not converge on dispatch()'s try/catch loop (the catch blocks jump back into the loop body: the
                 # unwinding assertion fails at every bound tried up to 24 although every concrete trace has <= 3 iterations); those shapes are
